@@ -119,6 +119,11 @@ def judge(gc, u, s_list=S_ALPHABET, g=None, form=None):
     bad = (mask != exp) & ~band
     for i in np.where(bad)[0]:
         out.append(("event_kept_iff_valid", i, bool(exp[i]), bool(mask[i]), None))
+    # the same decision on the angle and cosine the object itself reports (no tolerance band: the cut at 42 deg is strict)
+    with np.errstate(all="ignore"):
+        exp_rep = (ct >= 0) & (beta < 42)
+    for i in np.where(np.isfinite(beta) & np.isfinite(ct) & (mask != exp_rep))[0]:
+        out.append(("event_kept_iff_reported_angle_valid", i, f"{bool(exp_rep[i])} (reported angle {beta[i]!r} deg, cosine {ct[i]!r})", bool(mask[i]), None))
     rowfin = np.isfinite(L) & np.isfinite(lat) & np.isfinite(lon) & np.isfinite(beta)
     for i in np.where(mask & ~rowfin)[0]:
         out.append(("nonfinite_never_kept", i, False, True, None))
@@ -178,6 +183,18 @@ def threshold_points(gc, target, k=6):
         for sgn in (-1, 1):
             u1 = np.clip(0.5 * (lo + hi) + sgn * d, 0, 1)
             pts.append(np.stack([u1, U2, np.full(n, 0.5), U4])[:, ok])
+    # ... and ON it: the neighbouring doubles of the crossing, those whose REPORTED angle is bit-exactly the target
+    # (a strict cut keeps none of them)
+    mid = 0.5 * (lo + hi)
+    up, dn = mid.copy(), mid.copy()
+    for _ in range(48):
+        for arr in (up, dn):
+            with np.errstate(all="ignore"):
+                on = ok & (beta(arr) == 0.0)
+            if on.any():
+                pts.append(np.stack([arr, U2, np.full(n, 0.5), U4])[:, on])
+        up = np.nextafter(up, 2.0)
+        dn = np.nextafter(dn, -1.0)
     return np.concatenate(pts, axis=1) if pts else np.zeros((4, 0))
 
 
